@@ -696,9 +696,19 @@ def check_mark_before_recursion(model: RepoModel, rep, RID: str, rels: Iterable[
                 shrinks = [c for c in walk_no_nested(f.node) if isinstance(c, ast.Call) and isinstance(c.func, ast.Attribute) and c.func.attr in ("discard", "remove", "pop", "clear")
                            and norm(c.func.value) == M] + [d for d in walk_no_nested(f.node) if isinstance(d, ast.Delete) and any(
                                isinstance(t, ast.Subscript) and norm(t.value) == M for t in d.targets)]
+                # ... in a SEARCH (the result of the recursive call is returned as soon as there is one).  A function that enumerates all
+                # simple paths marks "on the current path" on purpose and hands nothing back from the recursion: not judged
+                rec_results = {a.targets[0].id for a in walk_no_nested(f.node) if isinstance(a, ast.Assign) and isinstance(a.targets[0], ast.Name)
+                               and any(a.value is r for r in rec_calls)}
+                is_search = any(isinstance(r_, ast.Return) and r_.value is not None and (any(r_.value is c for c in rec_calls)
+                                                                                       or (isinstance(r_.value, ast.Name) and r_.value.id in rec_results))
+                                for r_ in walk_no_nested(f.node))
                 n += 1
                 key_s = f"{rel}::{f.qualname}::the memo `{M}` only grows during the traversal"
-                if shrinks:
+                if shrinks and not is_search:
+                    rep.info(RID, key_s, rel, shrinks[0].lineno, "enumerates all simple paths: nodes are marked while they are on the current path, by design "
+                                                                  "(nothing is returned from the recursive call)")
+                elif shrinks:
                     rep.violation(RID, key_s, rel, shrinks[0].lineno,
                                   f"{f.qualname} removes entries from its memo (`{norm(shrinks[0])[:60]}`): a node is then marked only while it is on the current "
                                   f"path, so every dead-end region is re-explored once per path that leads into it -- exponential in the number of "
